@@ -153,7 +153,7 @@ func (g *gen) pinnedWitnesses() {
 		}
 		g.pin(17, "m := map[int]string{1:\"x\"}; m.x = 'q'", how, describe(o))
 	}
-	// 18: array-like object for a []int parameter
+	// 18 (repaired in 96bc623, kept as a regression case): array-like object for a []int parameter
 	{
 		vm := otto.New()
 		var got []reflect.Value
@@ -171,7 +171,7 @@ func (g *gen) pinnedWitnesses() {
 				how = 1
 			}
 		}
-		g.pin(18, "f({length: 2, 0: 5, 1: 6}) with f func([]int)", how, seen)
+		g.regress(18, "f({length: 2, 0: 5, 1: 6}) with f func([]int)", how, seen)
 	}
 	// 19: a fraction stored into a string element
 	{
@@ -205,8 +205,9 @@ func (g *gen) pinnedWitnesses() {
 		}
 		g.pin(21, "type SK string; m := map[SK]int{\"a\": 10}; m.a", how, describe(o))
 	}
-	// 20: negative / huge length
-	for _, src := range []string{"f({length: -1})", "s.length = 1e18"} {
+	// 20: a huge length on a bridged slice still reaches reflect.MakeSlice unchecked;
+	// f({length: -1}) for a []T parameter was repaired with 96bc623 (a non-list object is a TypeError) and is a regression case
+	for _, src := range []string{"f({length: -1})", "s.length = 1e18", "f(function(a, b){})", "f({length: 1e18})"} {
 		vm := otto.New()
 		var got []reflect.Value
 		Must(vm.Set("f", makeFunc([]reflect.Type{reflect.TypeOf([]int{})}, false, &got)))
@@ -219,7 +220,11 @@ func (g *gen) pinnedWitnesses() {
 		case isJSError(o):
 			how = 1
 		}
-		g.pin(20, src+" (f func([]int), s []int)", how, describe(o))
+		if strings.HasPrefix(src, "f(") {
+			g.regress(18, src+" (f func([]int))", how, describe(o))
+		} else {
+			g.pin(20, src+" (s []int)", how, describe(o))
+		}
 	}
 }
 
